@@ -226,14 +226,27 @@ class History:
         cands = [(eid, e) for eid, e in self.world.items() if self.views[e['type']]['clientProps'] and 0 <= eid < 2 ** 32]
         if not cands or self.game == 'wowp':
             return False
+        # the server re-sends values: sometimes an earlier update packet is repeated byte for byte (whatever happened to that property
+        # in between -- another update, a cell-player packet, a nested change -- the repeated value is the latest one again)
+        sent = getattr(self, 'sent_props', None)
+        if sent is None:
+            sent = self.sent_props = []
+        again = [x for x in sent if x[0] in self.world and self.views[self.world[x[0]]['type']]['name'] == x[2]]
+        if again and self.rng.random() < 0.25:
+            eid, name, etype, payload, v = self.rng.choice(again)
+            self.world[eid]['client'][name] = copy.deepcopy(v)
+            self.emit('prop', payload, id=eid, prop=name, value=copy.deepcopy(v), etype=etype, repeated=True)
+            return True
         eid, ent = self.rng.choice(cands)
         props = self.views[ent['type']]['clientProps']
         i = self.rng.randrange(len(props))
         name, size, t, flags = props[i]
         v = self.value(t)
         ent['client'][name] = v
-        self.emit('prop', struct.pack('<II', eid, i) + bstream(wire.encode(t, v, 1) + (b'\x09' * self.rng.choice([0, 0, 1]))),
-                  id=eid, prop=name, value=copy.deepcopy(v), etype=self.views[ent['type']]['name'])
+        payload = struct.pack('<II', eid, i) + bstream(wire.encode(t, v, 1) + (b'\x09' * self.rng.choice([0, 0, 1])))
+        self.emit('prop', payload, id=eid, prop=name, value=copy.deepcopy(v), etype=self.views[ent['type']]['name'])
+        sent.append((eid, name, self.views[ent['type']]['name'], payload, copy.deepcopy(v)))
+        del sent[:-12]
         return True
 
     def entity_method(self, garbage=False):
